@@ -140,6 +140,18 @@ func checkGenerator(r *run) {
 			e = append(e, map[string]any{"licenseExceptionId": "Zz-Verif-old-exception", "name": "deprecated exception", "isDeprecatedLicenseId": true, "referenceNumber": 9004, "seeAlso": []any{}, "reference": "x", "detailsUrl": "y"})
 			return l, e
 		}},
+		{"runs-of-deprecated-entries", func(l, e []any) ([]any, []any) {
+			// two and three neighbouring entries become deprecated (at the start, in the middle, at the end)
+			for _, list := range [][]any{l, e} {
+				n := len(list)
+				for _, at := range []int{0, 1, n / 2, n/2 + 1, n/2 + 2, n - 2, n - 1} {
+					if at >= 0 && at < n {
+						list[at].(map[string]any)["isDeprecatedLicenseId"] = true
+					}
+				}
+			}
+			return l, e
+		}},
 		{"minimal-entry-after-deprecated", func(l, e []any) ([]any, []any) {
 			if at := firstDeprecated(l); at >= 0 {
 				l = insertAfter(l, at, map[string]any{"licenseId": "Zz-Verif-Minimal-1.0", "name": "only id and name"})
